@@ -604,22 +604,19 @@ type c07Gen struct {
 	topo     bool
 	thorough bool
 	minors   map[string][]int // minors listed by the last inventory, per type
+	gpuMem   []int64          // memory size of GPU minor m: a property of the physical device, fixed within a history
 }
 
 var c07GPUMenu = [][2]int64{{25, 25}, {50, 50}, {100, 100}, {100, 100}, {50, 25}, {25, 50}}
 
-func (g *c07Gen) devRes(t string) map[string]int64 {
+func (g *c07Gen) devRes(t string, m int) map[string]int64 {
 	full := int64(100)
 	if g.rng.Intn(8) == 0 {
 		full = 50 // a shrunk (not zero) total
 	}
 	switch t {
 	case "gpu":
-		mem := int64(8000)
-		if g.rng.Intn(3) == 0 {
-			mem = 16000
-		}
-		return map[string]int64{"core": full, "ratio": full, "mem": mem * full / 100}
+		return map[string]int64{"core": full, "ratio": full, "mem": g.gpuMem[m] * full / 100}
 	default:
 		return map[string]int64{t: full}
 	}
@@ -636,7 +633,7 @@ func (g *c07Gen) inventory() c07Op {
 			if g.rng.Intn(8) == 0 {
 				continue // minor removed
 			}
-			d := c07Dev{T: t, M: m, H: g.rng.Intn(6) != 0, Res: g.devRes(t)}
+			d := c07Dev{T: t, M: m, H: g.rng.Intn(6) != 0, Res: g.devRes(t, m)}
 			o.Devices = append(o.Devices, d)
 			g.minors[t] = append(g.minors[t], m)
 		}
@@ -715,7 +712,7 @@ func (g *c07Gen) foreign() c07Alloc {
 		var res map[string]int64
 		if t == "gpu" {
 			p := c07GPUMenu[g.rng.Intn(len(c07GPUMenu))]
-			res = map[string]int64{"core": p[0], "ratio": p[1], "mem": p[1] * 80}
+			res = map[string]int64{"core": p[0], "ratio": p[1], "mem": p[1] * g.gpuMem[m] / 100}
 		} else {
 			res = map[string]int64{t: []int64{25, 50, 100}[g.rng.Intn(3)]}
 		}
@@ -811,6 +808,9 @@ func c07Random(rec *vu.Recorder, rng *rand.Rand, length int, thorough bool, stat
 	g.types = [][]string{{"gpu"}, {"rdma"}, {"gpu", "rdma"}, {"gpu", "rdma"}, {"gpu", "rdma", "fpga"}}[rng.Intn(5)]
 	g.nminor = 2 + rng.Intn(3)
 	g.topo = rng.Intn(4) == 0
+	for m := 0; m < g.nminor; m++ {
+		g.gpuMem = append(g.gpuMem, []int64{8000, 8000, 16000}[rng.Intn(3)])
+	}
 	for i := 0; i < 3+rng.Intn(4); i++ {
 		g.pods = append(g.pods, fmt.Sprintf("p%d", i))
 	}
